@@ -337,6 +337,69 @@ def add_log_ops(rng, case, n):
     return case
 
 
+RACE_NAMES = ["alpha", "beta", "gamma", "delta", "eps", "zeta", "eta", "theta", 'quo"te', "dotted.name", "uni\u2028", "r#type"]
+
+
+def gen_race_case(rng, wait_ms):
+    """two threads record on one span AT THE SAME TIME (harness op `race`): disjoint field sets, 1-2 calls each, the first
+    call of each thread carries a gate value (a Debug impl) that forces the calls to overlap if the implementation lets
+    them; afterwards an event inside the span shows what was stored"""
+    opts = gen_opts(rng, "race")
+    opts.update(cur=True, list=rng.random() < 0.7, flatten=rng.random() < 0.3)
+    for k in SEV:
+        opts[k] = False
+    names = rng.sample(RACE_NAMES, rng.randint(5, 9))
+    callsites = [{"kind": "span", "name": H(rand_string(rng, 6)), "target": H("race"), "level": 2, "file": None, "line": None,
+                  "fields": [H(n) for n in names]},
+                 {"kind": "event", "name": H("event"), "target": H("race"), "level": 2, "file": None, "line": None, "fields": [H("message")]}]
+    idx = list(range(len(names)))
+    rng.shuffle(idx)
+    n_init = rng.randint(0, 2)
+    init, rest = idx[:n_init], idx[n_init:]
+    cut = rng.randint(1, len(rest) - 1)
+    own1, own2 = rest[:cut], rest[cut:]
+    # a thread may also overwrite fields given at creation, but the two threads never write the same field
+    share = list(init)
+    rng.shuffle(share)
+    own1 = own1 + share[:len(share) // 2]
+    own2 = own2 + share[len(share) // 2:]
+
+    def calls(own, gate):
+        out = []
+        for ci in range(rng.randint(1, 2)):
+            ks = rng.sample(own, rng.randint(1, len(own)))
+            vals = [[k, gen_value(rng, True)] for k in ks]
+            if ci == 0:
+                vals[rng.randrange(len(vals))][1] = {"t": gate, "v": H(rand_string(rng, 6))}
+            out.append(vals)
+        return out
+    ops = [{"op": "span", "cs": 0, "id": 0, "parent": -1, "vals": [[k, gen_value(rng, True)] for k in init]}]
+    if rng.random() < 0.5:
+        ops.append({"op": "enter", "id": 0})
+    if rng.random() < 0.3:
+        ops.append({"op": "record", "id": 0, "vals": [[rng.choice(idx), gen_value(rng, True)]]})
+    ops.append({"op": "race", "id": 0, "t1": calls(own1, "gate1"), "t2": calls(own2, "gate2"), "wait_ms": wait_ms})
+    ops.append({"op": "event", "cs": 1, "parent": 0, "vals": [[0, {"t": "args", "v": H("after the race")}]]})
+    if rng.random() < 0.4:
+        ops.append({"op": "record", "id": 0, "vals": [[rng.choice(idx), gen_value(rng, True)]]})
+        ops.append({"op": "event", "cs": 1, "parent": 0, "vals": [[0, {"t": "args", "v": H("after a later record")}]]})
+    return {"id": 0, "kind": "race", "race": True, "opts": opts, "thread": None, "callsites": callsites, "ops": ops}
+
+
+def ungate(vals):
+    return [[i, ({"t": "debug", "v": v["v"]} if v["t"] in ("gate1", "gate2") else v)] for i, v in vals]
+
+
+def expand_op(case, op):
+    """the sequential operations a harness op stands for: a `log` record is the event tracing-log builds; a `race` is its
+    record calls (thread 1's, then thread 2's — the threads write disjoint fields, so every serial order stores the same)"""
+    if op["op"] == "log":
+        return [as_event_op(case, op)]
+    if op["op"] == "race":
+        return [{"op": "record", "id": op["id"], "vals": ungate(v)} for v in op["t1"] + op["t2"]]
+    return [op]
+
+
 def as_event_op(case, op):
     """the event tracing-log builds for a `log` record (lib.rs dispatch_record): message = the record's arguments, log.target,
     and log.module_path / log.file / log.line when the record has them; contextual parent"""
@@ -744,6 +807,8 @@ def close_timings(case, out):
 
 
 def coq_case(case, tid_hex, lg, timings):
+    """(Coq term, groups): the term evaluates to the lines per MODEL operation; groups[k] = how many model operations the
+    k-th harness operation expands to"""
     o = case["opts"]
     b = vlib.coq_bool
     opts = ("{| o_flatten := %s; o_cur := %s; o_list := %s; o_ts := %s; o_level := %s; o_target := %s; o_file := %s; o_line := %s; "
@@ -755,46 +820,58 @@ def coq_case(case, tid_hex, lg, timings):
     env = "{| thread_name := %s; thread_id := %s |}" % (
         "None" if case["thread"] is None else "(Some %s)" % cb(bytes.fromhex(case["thread"])), cb(bytes.fromhex(tid_hex)))
     ops = []
+    groups = []
     span_cs = {}
-    for k, op in enumerate(case["ops"]):
-        op = as_event_op(case, op)
-        kind = op["op"]
-        if kind == "span":
-            span_cs[op["id"]] = op["cs"]
-            c = case["callsites"][op["cs"]]
-            meta = "{| sm_name := %s; sm_level := %s; sm_target := %s; sm_file := %s; sm_line := %s |}" % (
-                cb(bytes.fromhex(c["name"])), vlib.coq_N(c["level"]), cb(bytes.fromhex(c["target"])),
-                "None" if c["file"] is None else "(Some %s)" % cb(bytes.fromhex(c["file"])),
-                "None" if c["line"] is None else "(Some %s)" % vlib.coq_N(c["line"]))
-            ops.append("ONew %s %s %s %s" % (vlib.coq_N(op["id"]), meta, coq_pspec(op["parent"]), coq_fields(case, op["cs"], op["vals"])))
-        elif kind == "enter":
-            ops.append("OEnter %s" % vlib.coq_N(op["id"]))
-        elif kind == "exit":
-            ops.append("OExit %s" % vlib.coq_N(op["id"]))
-        elif kind == "record":
-            ops.append("ORecord %s %s" % (vlib.coq_N(op["id"]), coq_fields(case, span_cs[op["id"]], op["vals"])))
-        elif kind == "close":
-            busy, idle = timings.get(k, ("", ""))
-            ops.append("OClose %s %s %s" % (vlib.coq_N(op["id"]), cb(busy), cb(idle)))
-        elif kind == "event":
-            c = case["callsites"][op["cs"]]
-            ev = "{| ev_level := %s; ev_target := %s; ev_file := %s; ev_line := %s; ev_vals := %s |}" % (
-                vlib.coq_N(c["level"]), cb(bytes.fromhex(c["target"])),
-                "None" if c["file"] is None else "(Some %s)" % cb(bytes.fromhex(c["file"])),
-                "None" if c["line"] is None else "(Some %s)" % vlib.coq_N(c["line"]),
-                coq_fields(case, op["cs"], op["vals"]))
-            ops.append("OEvent %s %s" % (ev, coq_pspec(op["parent"])))
-    return "(run_ops (repo_cfg_of %s) %s %s %s)" % (b(lg), opts, env, vlib.coq_list(ops))
+    for k, op0 in enumerate(case["ops"]):
+        sub = expand_op(case, op0)
+        groups.append(len(sub))
+        for op in sub:
+            kind = op["op"]
+            if kind == "span":
+                span_cs[op["id"]] = op["cs"]
+                c = case["callsites"][op["cs"]]
+                meta = "{| sm_name := %s; sm_level := %s; sm_target := %s; sm_file := %s; sm_line := %s |}" % (
+                    cb(bytes.fromhex(c["name"])), vlib.coq_N(c["level"]), cb(bytes.fromhex(c["target"])),
+                    "None" if c["file"] is None else "(Some %s)" % cb(bytes.fromhex(c["file"])),
+                    "None" if c["line"] is None else "(Some %s)" % vlib.coq_N(c["line"]))
+                ops.append("ONew %s %s %s %s" % (vlib.coq_N(op["id"]), meta, coq_pspec(op["parent"]), coq_fields(case, op["cs"], op["vals"])))
+            elif kind == "enter":
+                ops.append("OEnter %s" % vlib.coq_N(op["id"]))
+            elif kind == "exit":
+                ops.append("OExit %s" % vlib.coq_N(op["id"]))
+            elif kind == "record":
+                ops.append("ORecord %s %s" % (vlib.coq_N(op["id"]), coq_fields(case, span_cs[op["id"]], op["vals"])))
+            elif kind == "close":
+                busy, idle = timings.get(k, ("", ""))
+                ops.append("OClose %s %s %s" % (vlib.coq_N(op["id"]), cb(busy), cb(idle)))
+            elif kind == "event":
+                c = case["callsites"][op["cs"]]
+                ev = "{| ev_level := %s; ev_target := %s; ev_file := %s; ev_line := %s; ev_vals := %s |}" % (
+                    vlib.coq_N(c["level"]), cb(bytes.fromhex(c["target"])),
+                    "None" if c["file"] is None else "(Some %s)" % cb(bytes.fromhex(c["file"])),
+                    "None" if c["line"] is None else "(Some %s)" % vlib.coq_N(c["line"]),
+                    coq_fields(case, op["cs"], op["vals"]))
+                ops.append("OEvent %s %s" % (ev, coq_pspec(op["parent"])))
+    return "(run_ops (repo_cfg_of %s) %s %s %s)" % (b(lg), opts, env, vlib.coq_list(ops)), groups
+
+
+def regroup(per_op, groups):
+    """model lines per harness operation"""
+    out, i = [], 0
+    for g in groups:
+        out.append([l for lines in per_op[i:i + g] for l in lines])
+        i += g
+    return out if i == len(per_op) else None
 
 
 # ------------------------------------------------------------------------------------------------
 
-def run_harness(ctx, rep, path, cases, tag):
+def run_harness(ctx, rep, path, cases, tag, extra=()):
     f = os.path.join(ctx.work, "cases_%s.jsonl" % tag)
     with open(f, "w") as fh:
         for c in cases:
             fh.write(json.dumps(c) + "\n")
-    rc, out = run_bin(path, [f], timeout=900)
+    rc, out = run_bin(path, [f] + list(extra), timeout=900)
     obs = {}
     build = None
     for line in out.splitlines():
@@ -1092,6 +1169,8 @@ def run(ctx):
                 cases.append(gen_case(rng, kind, **kw))
         for _ in range(30 * scale):
             cases.append(add_log_ops(rng, gen_case(rng, "logcrate", esc_names=False), rng.randint(1, 4)))
+        for _ in range(8 * scale):
+            cases.append(gen_race_case(rng, 1000))
     for i, c in enumerate(cases):
         c["id"] = i + 1
     by_id = {c["id"]: c for c in cases}
@@ -1106,7 +1185,12 @@ def run(ctx):
         if not ok:
             rep.tie("build:" + want_build, False, vlib.last_error(log))
             return rep
-        obs, build = run_harness(ctx, rep, paths[binname], [strip_case(c) for c in cases if lg or not c.get("only_log")], want_build)
+        mine = [c for c in cases if lg or not c.get("only_log")]
+        obs, build = run_harness(ctx, rep, paths[binname], [strip_case(c) for c in mine if not c.get("race")], want_build)
+        racing = [strip_case(c) for c in mine if c.get("race")]
+        if racing:
+            obs2, _ = run_harness(ctx, rep, paths[binname], racing, want_build + "-race", extra=["--parallel"])
+            obs.update(obs2)
         if build != want_build:
             rep.tie("build-profile:" + want_build, False, "harness reports %r" % build)
         forms = []
@@ -1143,14 +1227,19 @@ def run(ctx):
             chunk = 25
             ids = [c["id"] for n, c in enumerate(cases)
                    if c["id"] in obs0 and (not lg or has_log_name(c) or c.get("only_log") or n % 6 == 0 or ctx.replay)]
+            groups = {}
             for i in range(0, len(ids), chunk):
                 part = ids[i:i + chunk]
-                terms.append(("m%d" % i, vlib.coq_list([coq_case(by_id[j], obs0[j]["tid"], lg, close_timings(by_id[j], obs0[j]["out"])) for j in part])))
+                tl = []
+                for j in part:
+                    term, groups[j] = coq_case(by_id[j], obs0[j]["tid"], lg, close_timings(by_id[j], obs0[j]["out"]))
+                    tl.append(term)
+                terms.append(("m%d" % i, vlib.coq_list(tl)))
             res = coq_eval(ctx, "From Coq Require Import String Ascii NArith ZArith Bool List.\nFrom TV Require Import Fmt.JsonModel.\nImport ListNotations.\nLocal Open Scope N_scope.",
                            terms, shards=min(vlib.NCPU, max(1, len(terms))), tag="cases_log" if lg else "cases")
             for i in range(0, len(ids), chunk):
                 for j, per_op in zip(ids[i:i + chunk], res["m%d" % i]):
-                    model[j] = (prof0, [[bytes(l) for l in lines] for lines in per_op])
+                    model[j] = (prof0, regroup([[bytes(l) for l in lines] for lines in per_op], groups[j]))
             n_eval = len(model)
             if lg and False in models:
                 for cid, v in models[False].items():
@@ -1183,9 +1272,10 @@ def run(ctx):
             sim = Sim(c, lg)
             o = c["opts"]
             model_prof, ml = model.get(cid, (None, None)) if model is not None else (None, None)
-            if ml is not None and len(ml) != len(c["ops"]):
-                disagree.append({"case": strip_case(c), "impl_ops": len(r["out"]), "model_ops": len(ml)})
+            if model is not None and cid in model and (ml is None or len(ml) != len(c["ops"])):
+                disagree.append({"case": strip_case(c), "impl_ops": len(r["out"]), "model_ops": None if ml is None else len(ml)})
                 ml = None
+            n_race = 0
             tid_here, tid_model = bytes.fromhex(r["tid"]), None
             if ml is not None and prof != model_prof:
                 # the model was evaluated with another run's thread id / close timings: substitute this run's texts
@@ -1208,10 +1298,20 @@ def run(ctx):
                         sim.apply(op)
                     eop = lifecycle_op(c, sim, op, sev_point[kind][1])
                     rep.count("lifecycle:" + sev_point[kind][1])
+                elif kind == "race":
+                    # the record calls of the two threads; they write disjoint fields, so what is recorded afterwards does
+                    # not depend on how they were ordered
+                    for sub in expand_op(c, op):
+                        sim.apply(sub)
+                    info = (r.get("race") or [])[n_race:n_race + 1]
+                    n_race += 1
+                    if not info or not info[0][2]:
+                        rep.violation("race operation: thread 2 never saw thread 1 begin (harness protocol) [%s build]" % prof,
+                                      {"case": strip_case(c), "op_index": k, "profile": prof})
+                    else:
+                        rep.count("race:overlapped" if info[0][0] else ("race:excluded(second call waited)" if info[0][1] else "race:no-gate-formatted"))
                 elif kind != "close":
                     sim.apply(op)
-                if kind == "record":
-                    pass
                 if eop is None:
                     if chunks:
                         rep.violation("operation %r wrote %d chunk(s) although no record is due [%s build]" % (kind, len(chunks), prof),
